@@ -208,3 +208,22 @@ var _ crypto.Cryptographer = zzCrypt{}
 var _ = verif.Reach
 
 func dbEntity(name string) db.Entity { return db.NewEntity(name, make([]byte, 32), nil) }
+
+func zzFinite(name string) float64 {
+	f := verif.F64(name)
+	verif.Assume(verif.And(f == f, f-f == 0))
+	return f
+}
+
+func itoa(u uint64) string {
+	if u == 0 {
+		return "0"
+	}
+	var b []byte
+	for u > 0 {
+		b = append([]byte{byte('0' + u%10)}, b...)
+		u /= 10
+	}
+	return string(b)
+}
+
